@@ -587,7 +587,11 @@ def spawn_layer_in_subprocess(result, script_parts, options, features,
 
         # Now we should be able to finish reading stderr.
         stderr_thread.join()
-        errlines = stderr_buf[0].splitlines()
+        # The report of the subprocess consists of lines terminated by
+        # '\n'; test names may contain other line separators such as '\r'.
+        errlines = stderr_buf[0].split(b'\n')
+        if errlines[-1] == b'':
+            del errlines[-1]
         erriter = iter(errlines)
         nfail = nerr = 0
         for line in erriter:
